@@ -1429,6 +1429,12 @@ def corpus_regressions(c, solver, matrix, function):
     attempt('solve_linear:lhs0-rejected', "solve_linear('v', eye(2)@v-1, lhs0=zeros(2))",
             lambda: solver.solve_linear('v', numpy.eye(2) @ v - 1., lhs0=numpy.zeros(2)), lambda x: numpy.allclose(x, 1.))
 
+    from .c14_hist import ARNOLDI_COLUMNS
+    if any(e.get('signature') == ARNOLDI_COLUMNS for e in c.findings):
+        # recorded minimal input of the finding of the history stream (re-run on every run once it is registered, open or fixed)
+        attempt(ARNOLDI_COLUMNS, 'assemble_csr([2.,1.,1.,3.],[0,2,4],[0,1,0,1],2).solve(array([[0.,2.],[0.,1.]]))  (default solver arnoldi, atol=rtol=0)',
+                lambda: M2([2., 1., 1., 3.]).solve(numpy.array([[0., 2.], [0., 1.]])), lambda x: numpy.allclose(x, [[0., 1.], [0., 0.]], atol=1e-12))
+
     def project_nan():
         topo, geom = mesh.rectilinear([2])
         return topo.project(numpy.sqrt(geom[0] - 1.5), onto=topo.basis('std', degree=1), geometry=geom, degree=2)
@@ -1483,13 +1489,15 @@ def run_streams(c, gens):
 
 def run(c):
     import nutils.matrix as matrix, nutils.solver as solver, nutils.function as function
+    from .c14_hist import stream_history
     quick = c.tier == 'quick'
     c.rule = ('scripted streams: residual-norm event lists (finite / NaN / +-inf / exactly tol / raising / exhausted) x tol (also 0, negative, NaN, inf) x miniter x maxiter, '
               'tuple and iterator path; small integer matrices (dense / diagonal / singular / sparse / non-square / 0x0) x right-hand sides x scripted solver results '
               '(exact, perturbed, zero, NaN, inf, wrong length, MatrixError, other error) x dyadic atol/rtol x every constraint pattern (lhs0, boolean / NaN-float constrain, rconstrain, no rhs); '
               'failure scripts for System.step; matrices with entries around droptol; argument/constraint combinations for deconstruct; (scale, accept) scripts for the line search. '
               'end-to-end streams: random well / spd / non-symmetric / ill-conditioned / badly scaled / singular dense systems x every numpy-backend solver and preconditioner x tolerance modes x constraint patterns '
-              'x 1 or 2 right-hand-side columns; cubic / sqrt / square / atan / linear systems through every System method and legacy wrapper; theta method; projections. '
+              'x 1 or 2 right-hand-side columns; histories of 3-8 solves / submatrix requests on ONE Matrix object (selections from a small pool shared by rows and columns, steps related to the previous one, '
+              'rconstrain absent / the same array object as constrain / an equal copy / another mask, boolean and NaN-float constrain, integer index arrays), every step certified on its own; cubic / sqrt / square / atan / linear systems through every System method and legacy wrapper; theta method; projections. '
               'a case is distinct by its full input data; non-trivial when it has at least one event / row / constraint')
     c.assumptions += ['only the numpy matrix backend exists in this sandbox (no scipy, no mkl): solvers direct and arnoldi, preconditioners direct and diag',
                       'the Lean model takes the vector norm as a parameter; the driver uses the squared 2-norm with squared tolerances (exact in Q, decides like the 2-norm for tolerances >= 0); '
@@ -1504,7 +1512,8 @@ def run(c):
                         ('matrix-solver', stream_matrix_solver(c, 300 if quick else 10000, matrix)),
                         ('matrix-solve', stream_matrix_solve(c, 400 if quick else 10000, matrix)),
                         ('step', stream_step(c, 150 if quick else 4000, solver, matrix, function)),
-                        ('constraints', stream_constraints(c, 120 if quick else 3000, solver, matrix, function))])
+                        ('constraints', stream_constraints(c, 120 if quick else 3000, solver, matrix, function)),
+                        ('history', stream_history(c, 500 if quick else 12000, matrix))])
         guarded(c, 'linear', e2e_linear, 150 if quick else 12000, matrix)
         guarded(c, 'nonlinear', e2e_nonlinear, 50 if quick else 4000, solver, matrix, function)
         guarded(c, 'arnoldi', e2e_arnoldi_reuse, 6 if quick else 400, solver, matrix, function)
